@@ -7,7 +7,7 @@ EXPLANATION = ('Decides from MIR: (R08.1) on every return path of the four inver
                'returned vector is the limits filter (role: Some(c) -> Constraints::filter(c, x), None -> x) or a sibling entry point for which '
                'the same holds; (R08.2) no other element-removing operation touches solution vectors in the solver; (R08.3) the singular candidate '
                'is pushed only on the true edge of the limits check for that same candidate; (R08.4) every wrapper returns the inner constraints() '
-               'and applies no element-wise write to the solutions after the inner (filtered) call.  With C07 deciding what the filter accepts, '
+               'and applies no element-wise write to the solutions after the inner (filtered) call.  (R08.5) the constructor with limits stores Some(its limits argument), the one without stores None, and constraints() returns that field (the limits filtered by are the limits given and the limits reported).  With C07 deciding what the filter accepts, '
                'the acceptance predicate itself (arc membership) is re-checked with the rules of C07 (R07.E, R07.2a, R07.2c, R07.3).')
 NOT_DECIDED = 'behaviour inside the excluded margin around the arc ends (see C07); nothing else'
 ASSUMPTIONS = ['Constraints::filter keeps exactly the compliant elements (R07.3, checked under C07)']
